@@ -594,6 +594,30 @@ def chainList (T : Table) : List String := T.keys.eraseDups
 def syncAll (hash : String → String) (T : Table) (ps : List Port) : Table × Option Err :=
   syncAllWith hash chainList T ps
 
+/-! ## daemon restart -/
+
+/-- `k8s.GetPodFullName` -/
+def fullPodName (name ns : String) : String := name ++ "_" ++ ns
+
+/-- what `parsePorts(pod)` puts into `Port.PodName`: the start-up sync uses it as it is -/
+def startupPodName (name ns : String) : String :=
+  if Generated.Netfilter.parsePortsSetsBarePodName then name else fullPodName name ns
+
+/-- the per-pod ADD path overwrites it with the request's pod name -/
+def addPodName (name ns : String) : String :=
+  if Generated.Netfilter.addPathOverwritesPodName then name else startupPodName name ns
+
+def withPodName (n : String) (p : Port) : Port := { p with podName := n }
+
+/-- a restart of the daemon (`setupIPtables`): one full sync over the ports of the live pods as the start-up
+    path derives them (`live` = the ports of the live pods as the ADD path recorded them) -/
+def restartPod (hash : String → String) (s : PodState) (name ns : String) (fromAnnotation : Bool) (live : List Port) :
+    PodState × Bool :=
+  -- a pod with the random-port annotation: the ports are read back from the annotation the ADD path wrote
+  let ps := if fromAnnotation then live else live.map (withPodName (startupPodName name ns))
+  let r := syncAll hash s.T ps
+  (⟨r.1, s.file⟩, r.2.isNone)
+
 /-! ## Text level: what the Go code writes into the restore buffer, and how restore reads it back
   (used by the driver: the batch text is compared with the bytes the real code passes to RestoreAll,
   and `parseText (setupText …) = setupBatch …` is re-checked on every case) -/
